@@ -19,6 +19,39 @@ def cpairs(l):
     return "[" + "; ".join("(%s, %s)" % (cz(a), cz(b)) for a, b in l) + "]"
 
 
+NUMFORMS = ("int", "float", "np.int64", "np.float64", "np.float32", "bool")
+
+
+def num(form, value):
+    """a number in one of the forms a caller may pass for a numeric keyword"""
+    if form == "int":
+        return int(value)
+    if form == "float":
+        return float(value)
+    if form == "bool":
+        return bool(value)
+    import numpy as np
+    return getattr(np, form[3:])(value)
+
+
+def total_model(x):
+    """the model's integer total for a finite numeric total: the wrappers' items depend on it only through None / zero /
+    non-zero (theorem C20_pbar_total_only_zeroness), so a non-integral or small non-zero value is mapped to a non-zero integer"""
+    if x is None:
+        return None
+    x = float(x)
+    if x == 0:
+        return 0
+    return int(x) if abs(x) >= 1 else (1 if x > 0 else -1)
+
+
+def total_forms(r, n):
+    """(form, value) pairs for total= around the item count n: integral and non-integral floats, numpy scalars, bool"""
+    return [("float", float(n)), ("float", n / 2 + 0.25), ("float", n + 5.5), ("np.int64", n), ("np.float64", float(max(n, 1))),
+            ("np.float32", n + 0.5), ("bool", True), ("bool", False), ("float", 0.0), ("float", 0.5), ("float", -1.5),
+            ("np.float64", r.choice([1e4, 3.0, float(n) / 3 + 0.1]))]
+
+
 def cbig(xs, f=clist, piece=2000):
     """a long list literal as a concatenation of pieces (coqc's parser overflows its stack on one very long literal)"""
     xs = list(xs)
@@ -290,6 +323,21 @@ class PBar(Entry):
                 for kind, simple in (("list", False), ("generator", False), ("range", True)):
                     cs.append({"kind": kind, "n": 40000, "simple": simple, "total": "none" if kind != "generator" else "exact",
                                "desc": "", "leave": True, "mininterval": 0.5, "miniters": 1000, "n_bars": 20, "family": "scale > 2^15"})
+        # numeric keywords in every numeric FORM (int, integral / non-integral float, numpy scalars, bool), sized and unsized
+        for kind in ("list", "generator", "prange"):
+            for n in ([0, 3, 8] if round == 0 else [r.randrange(0, 30)]):
+                for simple in (False, True):
+                    for tf in total_forms(r, n):
+                        forms = {"total": list(tf)}
+                        if r.random() < 0.5:
+                            forms["mininterval"] = list(r.choice([("float", 0.0), ("np.float64", 0.0), ("bool", False), ("np.int64", 0), ("float", 0.25)]))
+                        if r.random() < 0.5:
+                            forms["miniters"] = list(r.choice([("float", 1.0), ("float", 2.5), ("np.int64", 2), ("np.float64", 1.0), ("bool", True)]))
+                        if r.random() < 0.5:
+                            forms["n_bars"] = list(r.choice([("np.int64", 5), ("bool", True), ("int", 0), ("np.int64", 20)]))
+                        cs.append({"kind": kind, "n": n, "simple": simple, "total": "form", "forms": forms, "desc": r.choice(["", "lbl"]),
+                                   "leave": r.random() < 0.5, "mininterval": 0, "miniters": 1, "n_bars": 20,
+                                   "family": "numeric forms/%s/%s/total=%s" % (kind, "simple" if simple else "full", tf[0])})
         kinds = ["list", "range", "generator", "prange"]
         for kind in kinds:
             for n in ([0, 1, 3, 12] if round == 0 else [r.randrange(0, 30)]):
@@ -305,6 +353,8 @@ class PBar(Entry):
     @staticmethod
     def _total(c):
         n = c["n"]
+        if c.get("forms") and "total" in c["forms"]:
+            return total_model(num(*c["forms"]["total"]))
         return {"none": None, "exact": n, "less": max(n - 2, 1), "more": n + 5, "zero": 0, "negative": -3}[c["total"]]
 
     def impl(self, c):
@@ -328,6 +378,8 @@ class PBar(Entry):
                   mininterval=c["mininterval"], miniters=c["miniters"], n_bars=c["n_bars"], simple=c["simple"])
         if c.get("defaults"):
             kw = dict(file=buf)
+        for k_, fv in (c.get("forms") or {}).items():
+            kw[k_] = num(*fv)
         got, end = [], None
         try:
             if c["kind"] == "prange":
@@ -349,7 +401,7 @@ class PBar(Entry):
     def term(self, c, out):
         items = [10 + 3 * i for i in range(c["n"])]
         o = "(%s, %s)" % (cbig(out["yielded"], cpairs), "None" if out["end"] is None else "Some " + out["end"])
-        if c["simple"] or out["end"] is not None:
+        if c["simple"] or out["end"] is not None or c.get("forms"):
             return "v_pbar %s %s %s" % (self._cfg(c), cbig(items), o)
         # the full bar: the meters written to file= as well (deterministic schedule when mininterval = 0)
         return "v_pbar_prints %s %s %s %s %s %s %s" % (self._cfg(c), cz(c["miniters"]), cbool(c["leave"]),
@@ -425,6 +477,14 @@ class PMap(Entry):
                                "items": [r.randrange(-20, 20) for _ in range(n)], "chunksize": r.choice([1, 2, n + 1]),
                                "nproc": r.choice([1, 3]), "bar": {"simple": simple, "total": tot},
                                "family": "bar keywords/%s/total=%s" % ("simple" if simple else "full", tot)})
+            # numeric forms: chunksize / nproc as numpy integers or bool (floats are rejected by the executor), total= as floats
+            for cf, nf, tf in (("np.int64", "np.int64", ("float", 6.0)), ("bool", "int", ("np.float64", 2.5)), ("int", "bool", ("float", 3.5)),
+                               ("np.int64", "int", ("np.float32", 6.0)), ("int", "np.int64", ("bool", True))):
+                items = [r.randrange(-20, 20) for _ in range(6)]
+                cs.append({"a": r.randrange(-3, 4), "b": r.randrange(-9, 10), "lat": r.randrange(1, 50), "items": items,
+                           "chunksize": 1 if cf == "bool" else 2, "nproc": 1 if nf == "bool" else 3,
+                           "bar": {"simple": False, "total": "form"}, "forms": {"chunksize": cf, "nproc": nf, "total": list(tf)},
+                           "family": "numeric forms/chunksize=%s nproc=%s total=%s" % (cf, nf, tf[0])})
             # blocked processing with a remainder, more items than a few chunks
             cs.append(dict(base, items=[(13 * i) % 41 - 20 for i in range(300)], chunksize=7, nproc=3, family="scale 300 items / chunks of 7"))
         for nproc in ([1, 2, 4, 8] if round == 0 else [3, 5]):
@@ -450,10 +510,14 @@ class PMap(Entry):
             t = self._bar_total(c)
             if t is not None:
                 kw["total"] = t
+            csz, npr = c["chunksize"], c["nproc"]
+            if c.get("forms"):
+                kw["total"] = num(*c["forms"]["total"])
+                csz, npr = num(c["forms"]["chunksize"], csz), num(c["forms"]["nproc"], npr)
 
             def f():
                 try:
-                    return {"end": None, "res": [int(x) for x in pb.pmap(fn, c["items"], chunksize=c["chunksize"], nproc=c["nproc"], **kw)]}
+                    return {"end": None, "res": [int(x) for x in pb.pmap(fn, c["items"], chunksize=csz, nproc=npr, **kw)]}
                 except Exception as e:  # noqa
                     return {"end": core.errclass(e), "res": []}
             return ("ok", f())
@@ -462,6 +526,8 @@ class PMap(Entry):
     @staticmethod
     def _bar_total(c):
         n = len(c["items"])
+        if c.get("forms"):
+            return total_model(num(*c["forms"]["total"]))
         return {"absent": None, "exact": n, "less": max(n - 2, 1), "more": n + 5, "zero": 0}[c["bar"]["total"]]
 
     def term(self, c, out):
